@@ -55,6 +55,7 @@ class SrcInfo:
             for f in fs:
                 if f.endswith(".rs"):
                     self._load(os.path.join(dp, f))
+        self.resolve_const_exprs()
 
     def _load(self, path):
         with open(path) as f:
@@ -112,8 +113,37 @@ class SrcInfo:
                     self.consts[m.group(1)] = (int(v), m.group(2))
                 elif re.match(r"^\d+\s*(usize|u8|u16|u32|u64|u128)$", v):
                     self.consts[m.group(1)] = (int(re.match(r"^\d+", v).group(0)), m.group(2))
+                else:
+                    self._const_exprs = getattr(self, "_const_exprs", {})
+                    self._const_exprs.setdefault(m.group(1), (m.group(3).strip(), m.group(2)))
             except ValueError:
                 pass
+
+    def resolve_const_exprs(self):
+        """constants defined by arithmetic over other integer constants (`A / B`, `A * 8`, `1 << 10`)"""
+        pending = dict(getattr(self, "_const_exprs", {}))
+        for _ in range(4):
+            for name, (expr, ty) in list(pending.items()):
+                if name in self.consts or ty not in ("usize", "u8", "u16", "u32", "u64", "u128", "isize", "i32", "i64"):
+                    pending.pop(name, None)
+                    continue
+                e = re.sub(r"\b(\d[\d_]*)(usize|u8|u16|u32|u64|u128)\b", r"\1", expr).replace("_", "") if False else expr
+                e = re.sub(r"(?<=\d)_(?=\d)", "", e)
+                e = re.sub(r"\b(\d+)(usize|u8|u16|u32|u64|u128)\b", r"\1", e)
+                e = re.sub(r"\b(?:\w+::)+(\w+)\b", r"\1", e)
+                names = set(re.findall(r"\b[A-Z][A-Z0-9_]*\b", e))
+                if not names <= set(self.consts):
+                    continue
+                for nme in names:
+                    e = re.sub(r"\b%s\b" % nme, str(self.consts[nme][0]), e)
+                if not re.match(r"^[\d\s()+\-*/%<>]+$", e):
+                    pending.pop(name, None)
+                    continue
+                try:
+                    self.consts[name] = (int(eval(e.replace("/", "//"), {"__builtins__": {}})), ty)
+                except Exception:
+                    pass
+                pending.pop(name, None)
 
     # -- lookups -----------------------------------------------------------------------
     @staticmethod
